@@ -270,6 +270,18 @@ def check_parsed(ctx, case):
         if how == 'attribute':
             f = pt.formula(case['text'], table=T)
             f.name = name
+        elif how == 'renamed-copy':
+            # a copy of a formula that already has a name, given a new one: it prints the name it was given
+            f0 = pt.formula(case['text'], table=T, name='stock solution')
+            f = pt.formula(f0, name=name)
+            ctx.evaluated(what='name')
+            ctx.count('named.renamed-copy')
+            if str(f) != name or f.name != name:
+                ctx.violation('formula(<formula named %r>, name=%r) is named %r and prints %r'
+                              % (f0.name, name, f.name, str(f)[:200]), kind='name', how=how)
+            if str(f0) != 'stock solution':
+                ctx.violation('the formula named %r prints %r after a renamed copy was made' % ('stock solution', str(f0)[:200]),
+                              kind='name', how=how)
         else:
             f = pt.formula(case['text'], table=T, name=name)
             if how == 'multiplied':
@@ -394,7 +406,7 @@ def setup(ctx):
         ctx.require('contract._str_atoms', 1, 'the _str_atoms postcondition must have been evaluated')
         for name in ('formulas.parsed', 'formulas.arithmetic', 'formulas.mixture', 'named', 'feature.dt',
                      'counts.needing-more-than-6-digits', 'counts.float', 'groups.count-1', 'groups.counted',
-                     'mixture.weight', 'mixture.volume', 'named.hostile', 'counts.rounding-up-into-exponent-notation',
+                     'mixture.weight', 'mixture.volume', 'named.hostile', 'named.renamed-copy', 'counts.rounding-up-into-exponent-notation',
                      'counts.rounding-up-out-of-exponent-notation', 'counts.rounding-up-to-next-power-of-ten'):
             ctx.require(name, 1, 'workload feature demanded by the property quantifier')
 
@@ -596,7 +608,7 @@ def generate(ctx):
                 case = {'text': node.text, 'table': tname}
                 if rng.random() < 0.08:
                     case['name'] = rng.choice(HOSTILE_NAMES)
-                    case['name_how'] = rng.choice(['keyword', 'attribute', 'multiplied'])
+                    case['name_how'] = rng.choice(['keyword', 'attribute', 'multiplied', 'renamed-copy'])
                 name = 'parsed'
                 feats = _probe(lambda: [pt.formula(node.text, table=T)])
             elif r < 7:
